@@ -76,7 +76,7 @@ func zzC02ParrotsValid() {
 	verifReach("end")
 }
 
-//verif:harness C03 parrot_matches_spec unwind=4000 instrs=400000000 paths=60000
+//verif:harness C03 parrot_matches_spec unwind=4000 instrs=400000000 paths=400000 wall=3600
 //verif:stub (*math/rand.Rand).Shuffle zzStubShuffleOneSwap
 //verif:expect end
 //verif:doc Every predefined parrot: the wire hello equals an independent reference encoding of a fresh zzRefSpec(id) — legacy_version min(max,1.2), cipher suites and compression, extension code-point sequence (same multiset with GREASE/padding/PSK fixed for shuffling parrots) and every extension body — modulo exactly the per-connection material C03 lists. All random bytes symbolic; Config.NextProtos unset or {http/1.1}; Config.MinVersion/MaxVersion unset, MaxVersion=1.1, 1.0..1.2, or MinVersion=1.3 (the caller's bounds must not alter the parrot's bytes); for shuffling parrots the shuffle performs zero or one arbitrary legal swap.
